@@ -1,4 +1,6 @@
 """Seeded generator of program specs (swarm style: features and sizes vary per run)."""
+import json
+import zlib
 
 BASE = {
     "max_templates": 8, "max_steps": 4, "fanout": 3, "max_kinds": 3, "nest": 2,
@@ -62,10 +64,15 @@ def gen_program(rng, cfg):
     for attempt in range(6):
         spec = _gen_program(rng, cfg)
         if program_size(spec) <= cap:
-            return spec
+            break
         cfg = dict(cfg)
         cfg["n_templates"] = max(1, cfg["n_templates"] * 2 // 3)
         cfg["fanout"] = max(1, cfg["fanout"] - 1)
+    # one program in six: every exception instance the user code raises is falsy (an exception
+    # class with __bool__/__len__). Decided by a digest of the program, not by the generator's
+    # random stream (explicit, shrinkable key in the spec).
+    if zlib.crc32(json.dumps(spec, sort_keys=True).encode()) % 6 == 0:
+        spec["falsy_errors"] = True
     return spec
 
 
